@@ -90,11 +90,38 @@ ADVERSARIAL = [
 ]
 
 
+# literals at a custom scalar position (the scalar has no literal parser of its own; how such literals are coerced is the scalar's business, so these
+# documents are only in C05's corpus - never raises; if accepted, executes - and not in C06's verdict comparison)
+CUSTOM_SCALAR_DOCUMENTS = [
+    "{ echo(any: {a: 1}) }",
+    "{ echo(any: [1, {a: [2, {b: null}]}]) }",
+    "query ($v: Any = {a: 1}) { echo(any: $v) }",
+    "query ($v: Int) { echo(any: {a: $v}) b: echo(any: [$v]) }",
+    "{ a: echo(any: \"s\") b: echo(any: true) c: echo(any: null) }",
+]
+
+
+def max_nesting(text):
+    d = best = 0
+    for ch in text:
+        if ch in "{[":
+            d += 1
+            best = max(best, d)
+        elif ch in "}]":
+            d -= 1
+    return best
+
+
+# single named case of the property: nesting that the parser still accepts but that is deeper than the validator's recursion budget
+DEEP_DOCUMENTS = ["{ me " + "{ friends " * 160 + "{ name }" + " }" * 160 + " }",
+                  "{ echo(f: " + "{sub: " * 170 + "{min: 1}" + "}" * 170 + ") }"]
+
+
 def adversarial():
     """ADVERSARIAL plus every single-rule violation and every order-sensitive valid document of the C06 corpus: whatever validate_ast says about
     them, an accepted one must execute (imported lazily: c06 imports this module)"""
     from vf.props import c06 as _c06
-    return list(dict.fromkeys(ADVERSARIAL + [t for _r, t in _c06.LABELLED] + list(_c06.VALID_TRICKY)))
+    return list(dict.fromkeys(ADVERSARIAL + DEEP_DOCUMENTS + CUSTOM_SCALAR_DOCUMENTS + [t for _r, t in _c06.LABELLED] + list(_c06.VALID_TRICKY)))
 
 
 def mutations(text, rnd, pool_names):
@@ -160,7 +187,8 @@ def _chunk(texts):
             res = validate_ast(schema, doc)
             errs = list(res.errors)
         except Exception as e:
-            fails.append(("validate_ast:never-raises", {"document": text, "exc": type(e).__name__}, "validate_ast raised %r" % (e,)))
+            fails.append(("validate_ast:never-raises", {"document": text if len(text) < 400 else text[:120] + "...", "exc": type(e).__name__,
+                                                        "nesting": max_nesting(text)}, "validate_ast raised %r" % (e,)))
             continue
         if errs:
             continue
@@ -188,6 +216,8 @@ def _chunk(texts):
                 fails.append(("validated:execution-never-raises-internally", {"document": text, "operation": name, "exc": type(got["exc"]).__name__},
                               "a validated operation raised %r during execution" % (got["exc"],)))
                 continue
+            if "any:" in text.replace(" ", ""):
+                continue      # literals at a custom scalar position: which of them the scalar accepts at execution time is its own business (a field error is a valid outcome)
             bad = compare(exp, got)
             if bad and exp[0] == "result" and "__schema" not in text and "__type" not in text.replace("__typename", "") \
                     and "[$" not in text.replace(" ", ""):   # introspection: C15; missing variable inside a list literal: C07 known finding
